@@ -727,6 +727,31 @@ example : ∀ e ∈ ([⟨0xFFFFFFFF, 0xFFFFFFFF, List.replicate 9 7, 0⟩] : Lis
   subst he
   simp [Proofs.LruPtr.Entry.Fits]
 
+/-! ## the calls the tracer observes (failed ones included) vs the operations the theorems are about -/
+
+/-- K prints `saveIndexCalls` (every call of every attempt, the failing call marked, then
+`remove_file(temp)`) and compares it with the observed calls of a save with induced I/O errors;
+dropping the failed calls gives exactly the operation list `save_index_crash_safe` quantifies over —
+for every outcome list. -/
+theorem save_index_calls_effect (tmp fin : N) (bs : Bytes) (outcomes : List Attempt) :
+    effOps (saveIndexCalls tmp fin bs 3 outcomes) = saveIndex tmp fin bs outcomes :=
+  saveIndexCalls_eff tmp fin bs 3 outcomes
+
+/-- the same for `save_all` (stops after the first bucket whose three attempts failed). -/
+theorem save_all_calls_effect (buckets : List (BucketSave N)) :
+    effOps (saveAllCalls buckets) = saveAll buckets :=
+  saveAllCalls_eff buckets
+
+/-- every `(i, k)` enumerated over a call list is a crash prefix of the operations performed. -/
+theorem cutAtCalls_is_cut (cs : List (Call N)) (i k : Nat) : Cut (effOps cs) (cutAtCalls cs i k) :=
+  cutAtCalls_is_cut' cs i k
+
+/-- test: two failed attempts (create refused; write failed after 1 byte) and a good one. -/
+example : saveIndexCalls (1 : Nat) 0 [7, 7] 3 [.failCreate, .failWrite 1] =
+    [.failed (.create 1), .did (.unlink 1),
+     .did (.create 1), .did (.write 1 [7]), .failed (.write 1 [7]), .did (.unlink 1),
+     .did (.create 1), .did (.write 1 [7, 7]), .did (.fsync 1), .did (.rename 1 0)] := by decide
+
 /-! ## the driver's / harness's enumeration stays inside the crash relation -/
 
 /-- every `(i, k)` the driver and the harness enumerate is a crash prefix. -/
